@@ -101,13 +101,13 @@ def matching_list_values(rid, sid):
     opts = [o for o in inv["options"] if o in ("case_exceptions", "prefix_exceptions", "suffix_exceptions")]
     if "patterns" in inv["options"]:
         # comment leaders (docs/configuring_whitespace_after_comment_rules.rst: any string starting with `--`, no length restriction;
-        # the first matching pattern decides): a four-character leader taken from a comment of the fixture, listed before its own
-        # three-character prefix, so that both the length and the order of the list are in play
+        # the first matching pattern decides): a four-character leader taken from a comment of the fixture, listed before a
+        # non-overlapping three-character one, so that both the length and the order of the list are in play
         en = {"disable": False} if inv["disable"] else {}
         for l in corpus.lines_of(sid):
             m = re.match(r"^\s*(--[^\s\-]{2})\S", l)
             if m:
-                v = [m.group(1), m.group(1)[:3]]
+                v = [m.group(1), "--|" if m.group(1).startswith("--!") else "--!"]  # a second, non-overlapping leader that sorts differently
                 return [(f"{rid}.patterns~{_norm(v)}", {"rule": {rid: dict(en, patterns=v)}})]
         return []
     if not opts:
